@@ -22,7 +22,7 @@ import common
 from common import InfraError, Report
 
 
-SRC_GROUPS = {"C05": ["loops"], "C04": ["stream"], "C03": ["loops", "packet"], "C15": ["loops"], "C02": ["message", "packet"], "C07": ["fsinfo", "device", "stream"], "C08": ["stream"], "C10": ["stream"], "C11": ["txn", "loops"], "C14": ["device"], "C16": ["device"], "C17": ["keys"], "C19": ["store", "txn"]}
+SRC_GROUPS = {"C05": ["loops"], "C04": ["stream"], "C03": ["loops", "packet"], "C15": ["loops"], "C02": ["message", "packet"], "C07": ["fsinfo", "device", "stream"], "C08": ["stream"], "C10": ["stream"], "C11": ["txn", "loops"], "C14": ["device"], "C16": ["device"], "C17": ["keys"], "C19": ["store", "txn"], "C06": ["route", "store"]}
 
 
 class Ctx(object):
